@@ -31,16 +31,17 @@ LineSeq == SetToSeq(Lines)
 Q_PBase == {"rax", "%rax", "r8"}
 \* (%riz / %eiz: the pseudo index register objdump prints for a SIB byte without an index -- an index like any other)
 Q_PIndex == {<<>>, <<"rbx", "4">>, <<"%r8", "1">>, <<"rbx", "">>, <<"riz", "1">>}
-Q_PDisp == {"", "0x8", "8", "-0x8", "0x0", "0"}
+\* (a displacement whose leading hex digit is a letter, written with and without 0x)
+Q_PDisp == {"", "0x8", "8", "-0x8", "0x0", "0", "a8", "0xa8"}
 Q_OBase == {"%rax", "%r8", "%r8d"}
 Q_OIndex == {<<"", "">>, <<"%rbx", "4">>, <<"%r8", "1">>, <<"%rbx", "8">>, <<"%rax", "4">>, <<"%rbx", "1">>, <<"%riz", "1">>}
-Q_ODisp == {"", "0x8", "-0x8", "0x80", "0x0"}
+Q_ODisp == {"", "0x8", "-0x8", "0x80", "0x0", "0xa8"}
 T_PBase == {"rax", "%rax", "r8", "%r8d", "rbx"}
 T_PIndex == {<<>>, <<"rbx", "">>, <<"rbx", "4">>, <<"%r8", "1">>, <<"rbx", "8">>, <<"%rbx", "0x4">>, <<"rax", "2">>, <<"riz", "1">>, <<"%eiz", "1">>}
-T_PDisp == {"", "0x8", "8", "-0x8", "0x0", "0x80", "0"}
+T_PDisp == {"", "0x8", "8", "-0x8", "0x0", "0x80", "0", "a8", "0xa8", "ff"}
 T_OBase == {"%rax", "%r8", "%r8d", "%rbx", "%eax"}
 T_OIndex == {<<"", "">>, <<"%rbx", "4">>, <<"%r8", "1">>, <<"%rbx", "8">>, <<"%rax", "4">>, <<"%rbx", "1">>, <<"%rax", "2">>, <<"%r8", "4">>, <<"%riz", "1">>, <<"%eiz", "1">>, <<"%riz", "2">>}
-T_ODisp == {"", "0x8", "-0x8", "0x80", "0x0", "0x18", "0x88"}
+T_ODisp == {"", "0x8", "-0x8", "0x80", "0x0", "0x18", "0x88", "0xa8", "0xff"}
 
 Universe == [patterns |-> SetToSeq(Patterns),
              listings |-> [n \in DOMAIN LineSeq |-> Stream(<<LineSeq[n]>>)],
